@@ -114,6 +114,14 @@ def _discharge_idx(i):
     eng, obls, tmo, tier = _CTX
     o = obls[i]
     r = discharge(eng, o, tmo, fallback=(tier == "thorough"))
+    if r["status"] == "unknown":
+        # solver budgets are wall-clock: with every core busy (several checks side by side) an answer that takes a second alone
+        # may not arrive in time.  An undecided obligation is rare and gets one more attempt with three times the budget.
+        r2 = discharge(eng, o, tmo * 3, fallback=(tier == "thorough"))
+        if r2["status"] != "unknown":
+            r2["backend"] += " (second attempt, 3x budget)"
+            r2["time"] += r["time"]
+            r = r2
     rec = dict(name=o.name, kind=o.kind, status=r["status"], time=r["time"], backend=r["backend"],
                labels=o.labels, note=o.note)
     if r["status"] == "sat":
